@@ -45,10 +45,15 @@ func (s *subscriptionsState) mergeSubscriptions(subscriptions []*api.Subscriptio
 }
 
 func (s *subscriptionsState) dump(event *api.StateBroadcastEvent) {
-	subscriptions := s.All()
-	for idx := range subscriptions {
-		event.Subscriptions = append(event.Subscriptions, &subscriptions[idx])
-	}
+	// removed entries travel too: a node that missed the removal must learn it from the snapshot
+	s.mu.Lock()
+	defer s.mu.Unlock()
+	s.subscriptions.Iterate(func(b []byte) {
+		local := &api.SubscriptionList{}
+		if proto.Unmarshal(b, local) == nil {
+			event.Subscriptions = append(event.Subscriptions, local.Subscriptions...)
+		}
+	})
 }
 
 func (s *subscriptionsState) Create(sessionID string, pattern []byte, qos int32) error {
